@@ -107,47 +107,40 @@ fn locktest() {
 }
 
 fn elidetest() {
+    // debug: a commit that rewrites the leaf of an un-compressed branch separator which is
+    // followed by further un-compressed separators.
     use nomt::{KeyReadWrite, SessionParams};
     type Db = nomt::Nomt<nomt::hasher::Blake3Hasher>;
-    let dir = std::path::PathBuf::from(format!("/dev/shm/nv-elide.{}", std::process::id()));
+    let dir = std::path::PathBuf::from(format!("/dev/shm/nv-chunk.{}", std::process::id()));
     let _ = std::fs::remove_dir_all(&dir);
     let mut c = cfg::Cfg::default_small();
-    c.buckets = 1024;
+    c.buckets = 8192;
     let db = Db::open(c.options(&dir)).unwrap();
-    let s = db.begin_session(SessionParams::default());
-    let mut batch = Vec::new();
-    for i in 0..10u8 {
+    let commit = |batch: Vec<([u8; 32], Option<Vec<u8>>)>| {
+        let s = db.begin_session(SessionParams::default());
+        let mut b: Vec<_> = batch.into_iter().map(|(k, v)| (k, KeyReadWrite::Write(v))).collect();
+        b.sort_by(|a, b| a.0.cmp(&b.0));
+        s.finish(b).unwrap().commit(&db).unwrap();
+    };
+    let ck = |i: u32| {
         let mut k = [0u8; 32];
-        k[0] = 0xAB;
-        k[1] = 0xC0 | (i & 0x0f); // 12 shared bits 0xABC, then 4 varying bits
-        k[5] = i;
-        batch.push((k, KeyReadWrite::Write(Some(vec![i; 4]))));
-    }
-    // some other keys so that the root has structure
-    for i in 0..3u8 {
+        k[16..20].copy_from_slice(&i.to_be_bytes());
+        k[31] = 1;
+        k
+    };
+    let far = |i: u8| {
         let mut k = [0u8; 32];
-        k[0] = i * 40 + 1;
-        batch.push((k, KeyReadWrite::Write(Some(vec![i; 4]))));
-    }
-    batch.sort_by(|a, b| a.0.cmp(&b.0));
-    s.finish(batch).unwrap().commit(&db).unwrap();
-    let occ = db.hash_table_utilization();
-    println!("occupied {:?}", occ);
-    let meta = decode::read_meta(&dir).unwrap();
-    let n = meta.bitbox_num_pages as u64;
-    let mp = (n + 4095) / 4096;
-    let ht = decode::StoreFile::open(&dir.join("ht")).unwrap();
-    let map = ht.page(0).unwrap();
-    for b in 0..n {
-        if map[b as usize] & 0x80 != 0 {
-            let p = ht.page((mp + b) as u32).unwrap();
-            let label: [u8; 32] = p[4096 - 32..].try_into().unwrap();
-            let pid = decode::path_of_label(&label).unwrap();
-            let el = u64::from_le_bytes(p[4096 - 40..4096 - 32].try_into().unwrap());
-            let nz = (0..126).filter(|i| p[i * 32..i * 32 + 32] != [0u8; 32]).count();
-            println!("bucket {b}: page depth {} label ..{:02x}{:02x} elided {:#018x} nonzero nodes {nz}", pid.len(), label[30], label[31], el);
-        }
-    }
-    drop(db);
+        k[0] = 0xff;
+        k[1] = i;
+        k
+    };
+    let n: u32 = std::env::var("N").ok().and_then(|v| v.parse().ok()).unwrap_or(520);
+    commit((0..n).map(|i| (ck(i), Some(vec![(i % 251) as u8; 1300]))).collect());
+    commit((1..=12u8).map(|i| (far(i), Some(vec![0xf0; 1300]))).collect());
+    println!("two commits done; now overwrite far(1)");
+    commit(vec![(far(1), Some(vec![7; 1200]))]);
+    println!("overwrite of first far key ok");
+    commit(vec![(far(5), Some(vec![8; 1200]))]);
+    println!("ok: {:?}", db.read(far(5)).unwrap().map(|v| v.len()));
     let _ = std::fs::remove_dir_all(&dir);
 }
